@@ -437,8 +437,10 @@ def d1_history(position, P, build, derive, early, target, mkind, dotted=True, tw
 
 
 def cache_held(dname):
-    """derivations that hand out an object the source keeps in its own cache (conversions, .pos, .vel)"""
-    return dname.startswith("to:") or dname in ("pos", "vel")
+    """derivations that hand out an object the source keeps in its own cache without being told of changes to it: .pos / .vel
+    (copies for a 2-d PosVel).  Conversions are not among them any more: the converted array registers its source as a
+    dependent (3693fe8, 9ad3ce5), so a write into it makes the source convert anew."""
+    return dname in ("pos", "vel")
 
 
 QUICK_WORLDS = ["pos:n", "pos:1", "delta:n", "posvel:n", "pvdelta:n"]
@@ -962,3 +964,91 @@ def run_shared(ctx, mods, budget):
         ctx.case(["F", shape, list(ops)], nontrivial=len(ops) > 2)
         ctx.count("F:shared-memory-history")
     return n_hist
+
+
+# ------------------------------------------------------------------------------------------------ G: results of time objects
+# Every format / property of a time object is memoised per process under the epoch values: all equal time objects receive
+# the same result object.  "Modifying a returned result never changes later results": for every readable name (formats,
+# properties, found by introspection), on every scale and for array / one-epoch / scalar times, read – try to write into every
+# array that can be reached in the result (the result itself, the members of a tuple result) – read again on the same
+# object and on a freshly built equal one.  A write must be refused, or must not show.
+
+
+def _tsnap(x):
+    if isinstance(x, tuple):
+        return ("tuple",) + tuple(_tsnap(v) for v in x)
+    if isinstance(x, np.ndarray):
+        a = np.asarray(x)
+        vals = tuple(map(str, a.ravel())) if a.dtype.kind in "OUS" else a.tobytes()
+        return (type(x).__name__, getattr(x, "fmt", None), a.shape, str(a.dtype), vals)
+    return (type(x).__name__, repr(x))
+
+
+def _try_write(x, log):
+    """write into every array reachable in x; log what happened"""
+    if isinstance(x, tuple):
+        for v in x:
+            _try_write(v, log)
+        return
+    if not isinstance(x, np.ndarray):
+        return
+    a = np.asarray(x)
+    if a.size == 0:
+        return
+    junk = {"f": 7.0, "i": 7, "u": 7, "U": "x", "S": b"x", "O": None, "b": True}.get(a.dtype.kind)
+    if a.dtype.kind not in "fiuUSOb":
+        return
+    for how, act in (("item assignment", lambda: a.__setitem__(Ellipsis, junk)),
+                     ("out=", (lambda: np.add(a, 1, out=a)) if a.dtype.kind in "fiu" else None)):
+        # (switching the flag back on with setflags(write=True) is a deliberate act of the caller, not tried)
+        if act is None:
+            continue
+        try:
+            act()
+            log.append(how + ": accepted")
+        except (ValueError, TypeError):
+            log.append(how + ": refused")
+
+
+def run_time_results(ctx, mods):
+    T, Time = mods[4], mods[5]
+    fmts = sorted(T._FORMATS.get("TimeFormat", {}))
+    n = 0
+    for scale in ("utc", "gps", "tai", "tt", "tcg", "tdb"):
+        for shape in ("n", "1", "0"):
+            def make(scale=scale, shape=shape):
+                jd1 = np.array([2457754.5, 2457755.5, 2457790.5]) if shape == "n" else np.array([2457754.5])
+                jd2 = np.array([0.25, 0.5, 0.125]) if shape == "n" else np.array([0.25])
+                if shape == "0":
+                    return Time(float(jd1[0]), val2=float(jd2[0]), fmt="jd", scale=scale)
+                return Time(jd1, val2=jd2, fmt="jd", scale=scale)
+            try:
+                t = make()
+            except Exception:
+                continue
+            props = []
+            for cls in type(t).__mro__:
+                if getattr(cls, "__module__", "").startswith("midgard"):
+                    props += [k for k, v in vars(cls).items() if isinstance(v, property) and not k.startswith("_")]
+            for name in sorted(set(fmts + props)):
+                t = make()
+                try:
+                    r0 = getattr(t, name)
+                except Exception:
+                    continue
+                s0 = _tsnap(r0)
+                log = []
+                _try_write(r0, log)
+                try:
+                    s1, s2 = _tsnap(getattr(t, name)), _tsnap(getattr(make(), name))
+                except Exception as e:  # noqa
+                    s1 = s2 = ("ERR", type(e).__name__)
+                n += 1
+                ctx.case(["G", scale, shape, name], nontrivial=True)
+                ctx.count("G:" + ("write-accepted" if any(x.endswith("accepted") for x in log) else "all-writes-refused" if log else "no-array-in-result"))
+                if s1 != s0 or s2 != s0:
+                    ctx.violate(f"returned-result-shared:time:{name}",
+                                f"{scale} time, shape {shape}: r = t.{name}; writing into r ({', '.join(log)}) changed what "
+                                f"{'the same object' if s1 != s0 else 'a freshly built equal time'} returns for .{name}: {str(s1 if s1 != s0 else s2)[:200]} instead of {str(s0)[:200]}",
+                                {"part": "G", "scale": scale, "shape": shape, "name": name, "writes": log})
+    return n
